@@ -386,6 +386,33 @@ def close_after_send_case(res, rng, size, bound=40.0):
                     "bytes of that send", case, size, {"peer_read": len(received), "correct_prefix": good, "reader_error": err})
 
 
+def send_message_truthful_case(res):
+    """`Protocol.send_message` may say True only for blocks that were sent: a send that is still in progress after T3 (1 s here) and then
+    fails must not have been reported as successful in the meantime."""
+    s, p, c = M.new_protocol(t3=1)
+    release = threading.Event()
+
+    def slow_failing_send(data):
+        release.wait(2.5)
+        return False
+    c.send_data = slow_failing_send
+    c.on_connected({"source": c})
+    out = []
+    done = threading.Event()
+    msg = secsgem.hsms.HsmsMessage(secsgem.hsms.HsmsLinktestRspHeader(77), b"")
+    t0 = time.monotonic()
+    threading.Thread(target=lambda: (out.append(p.send_message(msg)), out.append(round(time.monotonic() - t0, 2)), done.set()), daemon=True).start()
+    finished = done.wait(6)
+    case = {"kind": "send-message-truthful", "t3": 1, "send_data": "pending 2.5 s, then False"}
+    res.count(("send-message-truthful",), sample={"op": "send_message while send_data is pending beyond T3, then fails", "result": out})
+    res.bump("send_message_truthful", str(out[:1]))
+    if finished and out and out[0] is True:
+        res.violate("send-message-true-unsent", "send_message returned True although the block's send_data had not finished (and then failed): "
+                    "success reported for bytes that were never sent", case, False, out)
+    elif not finished:
+        res.violate("send-message-hang", "send_message did not return within 6 s although send_data returned after 2.5 s", case, False, out)
+
+
 def loopback_part(res, rng, big):
     close_after_send_case(res, rng, (3 if big else 2) * 1024 * 1024 + 5)
     cid = 0
@@ -435,6 +462,7 @@ def main():
         M.guarded(res, "queue", lambda: queue_part(res, rng.fork("queue"), drv, big))
     finally:
         tcp_mod.select = REAL_SELECT_MODULE
+    M.guarded(res, "send_message", lambda: send_message_truthful_case(res))
     M.guarded(res, "loopback", lambda: loopback_part(res, rng.fork("loop"), big))
     res.notes.append("the scripted socket raises a BaseException when its oracle is exhausted: that run is 'pending' (the real loop would go on)")
     res.notes.append("kernel TCP (bytes accepted by send() arrive once, in order) is assumed by the theorems and exercised only by the loopback part")
